@@ -1,9 +1,11 @@
 use crate::fw::Property;
 
+pub mod c01;
 pub mod c09;
+pub mod c12;
 
 pub fn all() -> Vec<Box<dyn Property>> {
-    vec![Box::new(c09::C09)]
+    vec![Box::new(c01::C01), Box::new(c09::C09), Box::new(c12::C12)]
 }
 
 pub fn find(id: &str) -> Option<Box<dyn Property>> {
